@@ -46,7 +46,7 @@ pub(crate) enum Escape {
     /// Insert a newline character unless on a new line already
     UnescapedAtNewline,
 
-    /// Escape space characters (`' '`) and newlines (`'\n'`)
+    /// Escape space characters (`' '`), newlines (`'\n'`) and backslashes (`'\\'`)
     /// This escape is used for control sequence arguments
     Spaces,
 
@@ -95,6 +95,10 @@ where
                 Escape::Spaces => {
                     if c == b' ' || c == b'\n' {
                         out.extend_from_slice(b"\\ ");
+                    } else if c == b'\\' {
+                        // request arguments are read in copy mode where `\\` turns back into
+                        // a live escape character, `\e` survives it and prints a backslash
+                        out.extend_from_slice(b"\\e");
                     } else {
                         out.push(c);
                     }
